@@ -50,9 +50,10 @@ func spaceDeepTable(ctx *bex.Ctx)  { explore(ctx, famDeepTable) }  // (c) deep n
 func spacePadded(ctx *bex.Ctx)     { explore(ctx, famPadded) }     // (c) padded valid programs
 func spaceBytes6(ctx *bex.Ctx)     { explore(ctx, famBytes6) }     // (a) thorough: 6 symbols, reduced alphabet
 
-func spaceUnicode(ctx *bex.Ctx) { explore(ctx, famUnicode) } // (d) Unicode classes
-func spaceFolds(ctx *bex.Ctx)   { explore(ctx, famFolds) }   // (e) failing constant folds
-func spaceRunaway(ctx *bex.Ctx) { explore(ctx, famRunaway) } // (f) constant recursion without end
+func spaceUnicode(ctx *bex.Ctx)        { explore(ctx, famUnicode) }        // (d) Unicode classes
+func spaceFolds(ctx *bex.Ctx)          { explore(ctx, famFolds) }          // (e) failing constant folds
+func spaceRunaway(ctx *bex.Ctx)        { explore(ctx, famRunaway) }        // (f) constant recursion without end
+func spaceGoroutineFolds(ctx *bex.Ctx) { explore(ctx, famGoroutineFolds) } // (g) folds that start goroutines
 
 func run(ctx *bex.Ctx) {
 	if runAsChild(ctx) { // a child process executes the index range named in its environment
@@ -72,6 +73,7 @@ func run(ctx *bex.Ctx) {
 		spaceUnicode,
 		spaceFolds,
 		spaceRunaway,
+		spaceGoroutineFolds,
 		spaceBytes,
 		spaceTokens,
 		spacePadded,
